@@ -168,7 +168,7 @@ META['C15'] = {
             'failure, whatever kind of statement produced it, and that otherwise every statement of a body is started unless continue / break was met.',
     'note': 'the reference regex is uninterpreted (assumed: anchored, group 3 a proper suffix); the pest parse tree is opaque (text, rule and children of a node uninterpreted), '
             'run_exp_if / run_exp_for / run_exp_test_br / expand_line_to_toknes are under contract too (branches in order up to the first that passes; one round per word in order; the test results are kept; positional parameters before the other expansions), '
-            'as are the exit and source builtins (U-BSH) and Shell::set_func; function extraction in run_script is covered by the bounded script cases only (see C14); known finding (bounded): an argument is pasted into the line as text.',
+            'as are the exit and source builtins (U-BSH), Shell::set_func and run_script from the text of the file on (the functions of a file are defined as written before its other lines are run: line-by-line reading frun; locating and reading the file is an opaque shim; the header / closing-line patterns are uninterpreted, axiom fn_head); known finding (bounded): an argument is pasted into the line as text.',
 }
 
 META['C07'] = {
